@@ -70,6 +70,7 @@ def adversarial_upd(rng, cid, tier):
 
 
 def run(ctx):
+    gen.INTEGRAL[0] = True          # real-typed weights are integer-valued here: how fractional weights are rounded is C08's subject
     ctx.trusted = ['Coq 8.16.1 kernel; axioms: the standard library\'s real-number axioms (ClassicalDedekindReals.sig_forall_dec, sig_not_dec, functional_extensionality_dep, Classical_Prop.classic), as printed below',
                    'correspondence K-UPD (the three updates individually and composed; the likelihood function is NOT part of this property\'s tie: C06) and K-GRAPH vs the extracted float model, bit for bit; trajectories of whole runs are observed on the implementation only',
                    'not verified: binary64 rounding -- the ascent theorems are about exact reals; "monotone up to floating-point rounding" is checked on the implementation only by the monitor (tolerance 1e-9 relative)',
